@@ -25,7 +25,12 @@ pub enum TOp {
     Restore,
     /// `let _ = local_take();` – the saved override is thrown away
     TakeDiscard,
+    /// a second token slot of the same thread (two saved overrides alive at once)
+    Take2,
+    Restore2,
 }
+/// every operation the worker understands (command codes); the main exploration uses `OPS`
+pub const ALL_OPS: [TOp; 11] = [TOp::Enable, TOp::Disable, TOp::Toggle, TOp::LocalEnable, TOp::LocalDisable, TOp::LocalToggle, TOp::LocalTake, TOp::Restore, TOp::TakeDiscard, TOp::Take2, TOp::Restore2];
 pub const OPS: [TOp; 9] = [TOp::Enable, TOp::Disable, TOp::Toggle, TOp::LocalEnable, TOp::LocalDisable, TOp::LocalToggle, TOp::LocalTake, TOp::Restore, TOp::TakeDiscard];
 
 #[derive(Clone, Copy, Debug, PartialEq, Eq, PartialOrd, Ord)]
@@ -40,11 +45,12 @@ pub struct RefState {
     pub global: bool,
     pub local: [Flag; 2],
     pub token: [Option<Flag>; 2],
+    pub token2: [Option<Flag>; 2],
 }
 
 impl RefState {
     pub fn initial() -> Self {
-        RefState { global: true, local: [Flag::Global; 2], token: [None; 2] }
+        RefState { global: true, local: [Flag::Global; 2], token: [None; 2], token2: [None; 2] }
     }
     pub fn view(&self, t: usize) -> bool {
         match self.local[t] {
@@ -85,6 +91,15 @@ impl RefState {
                 }
             }
             TOp::TakeDiscard => self.local[t] = Flag::Global,
+            TOp::Take2 => {
+                self.token2[t] = Some(self.local[t]);
+                self.local[t] = Flag::Global;
+            }
+            TOp::Restore2 => {
+                if let Some(f) = self.token2[t].take() {
+                    self.local[t] = f;
+                }
+            }
         }
     }
 }
@@ -92,7 +107,7 @@ impl RefState {
 /// command slot shared between the explorer and one worker thread (spin-waited: three threads
 /// on a 16-core box, and a futex round trip per step dominated the run time otherwise)
 struct Slot {
-    /// 0 = idle, 1..=9 = operation index + 1, 10 = observe only, 11 = exit
+    /// 0 = idle, 1..=11 = index into ALL_OPS + 1, 20 = observe only, 21 = exit
     cmd: std::sync::atomic::AtomicU32,
     /// 0 = none, 1 = false, 2 = true
     obs: std::sync::atomic::AtomicU32,
@@ -101,6 +116,7 @@ struct Slot {
 fn worker(slot: std::sync::Arc<Slot>) {
     use std::sync::atomic::Ordering::{Acquire, Release};
     let mut token: Option<tracing_enabled::LocalEnableState> = None;
+    let mut token2: Option<tracing_enabled::LocalEnableState> = None;
     // first report: the view of a fresh thread
     slot.obs.store(1 + tracing_enabled::is_enabled() as u32, Release);
     let mut idle = 0u32;
@@ -118,9 +134,9 @@ fn worker(slot: std::sync::Arc<Slot>) {
         }
         idle = 0;
         match c {
-            11 => return,
-            10 => {}
-            n => match OPS[(n - 1) as usize] {
+            21 => return,
+            20 => {}
+            n => match ALL_OPS[(n - 1) as usize] {
                 TOp::Enable => tracing_enabled::enable(),
                 TOp::Disable => tracing_enabled::disable(),
                 TOp::Toggle => tracing_enabled::toggle(),
@@ -135,6 +151,12 @@ fn worker(slot: std::sync::Arc<Slot>) {
                 }
                 TOp::TakeDiscard => {
                     let _ = tracing_enabled::local_take();
+                }
+                TOp::Take2 => token2 = Some(tracing_enabled::local_take()),
+                TOp::Restore2 => {
+                    if let Some(t) = token2.take() {
+                        tracing_enabled::restore(t)
+                    }
                 }
             },
         }
@@ -160,8 +182,8 @@ fn take_obs(slot: &Slot) -> bool {
 
 fn send(slot: &Slot, op: Option<TOp>) -> bool {
     let code = match op {
-        None => 10,
-        Some(o) => 1 + OPS.iter().position(|x| *x == o).unwrap() as u32,
+        None => 20,
+        Some(o) => 1 + ALL_OPS.iter().position(|x| *x == o).unwrap() as u32,
     };
     slot.cmd.store(code, std::sync::atomic::Ordering::Release);
     take_obs(slot)
@@ -169,16 +191,35 @@ fn send(slot: &Slot, op: Option<TOp>) -> bool {
 
 /// run one history on two fresh OS threads; returns the first divergence
 pub fn run_history(hist: &[(usize, TOp)]) -> Option<Divergence> {
+    run_history_mode(hist, false)
+}
+
+/// `late`: each worker thread is only created when its first operation is due, so that threads are
+/// born in every reference state (a fresh thread has no override and must see the global setting
+/// of that moment); until then the unborn thread is not observed
+pub fn run_history_mode(hist: &[(usize, TOp)], late: bool) -> Option<Divergence> {
     // put the process-wide flag into the reference's initial state; the explorer thread's own
     // override is irrelevant (it never asks for its view)
     tracing_enabled::enable();
     let slots: Vec<std::sync::Arc<Slot>> = (0..2).map(|_| std::sync::Arc::new(Slot { cmd: 0.into(), obs: 0.into() })).collect();
-    let handles: Vec<_> = slots.iter().map(|s| { let s = s.clone(); std::thread::spawn(move || worker(s)) }).collect();
+    let mut handles: Vec<Option<std::thread::JoinHandle<()>>> = vec![None, None];
+    let spawn = |t: usize| {
+        let s = slots[t].clone();
+        std::thread::spawn(move || worker(s))
+    };
+    if !late {
+        for t in 0..2 {
+            handles[t] = Some(spawn(t));
+        }
+    }
     let mut rs = RefState::initial();
     let mut result = None;
     let describe = |i: usize| hist[..=i].iter().map(|(t, o)| format!("T{t}.{o:?}")).collect::<Vec<_>>().join(" ");
     // fresh threads see the global value
     for t in 0..2 {
+        if late {
+            continue;
+        }
         let v = take_obs(&slots[t]);
         if v != rs.view(t) {
             result = Some(Divergence::new("fresh-thread-view-wrong", format!("thread {t} starts with view {v}")));
@@ -186,10 +227,18 @@ pub fn run_history(hist: &[(usize, TOp)]) -> Option<Divergence> {
     }
     if result.is_none() {
         for (i, &(t, op)) in hist.iter().enumerate() {
+            if handles[t].is_none() {
+                handles[t] = Some(spawn(t));
+                let v = take_obs(&slots[t]);
+                if v != rs.view(t) {
+                    result = Some(Divergence::new("fresh-thread-view-wrong", format!("[{}]: thread {t} is born with view {v}, the global setting is {}", if i == 0 { String::new() } else { describe(i - 1) }, rs.global)));
+                    break;
+                }
+            }
             rs.apply(t, op);
             let mine = send(&slots[t], Some(op));
-            // the other thread only observes
-            let other = send(&slots[1 - t], None);
+            // the other thread only observes (if it exists yet)
+            let other = if handles[1 - t].is_some() { send(&slots[1 - t], None) } else { rs.view(1 - t) };
             if mine != rs.view(t) {
                 result = Some(Divergence::new(
                     format!("own-view-wrong-after:{op:?}"),
@@ -208,9 +257,9 @@ pub fn run_history(hist: &[(usize, TOp)]) -> Option<Divergence> {
         }
     }
     for s in &slots {
-        s.cmd.store(11, std::sync::atomic::Ordering::Release);
+        s.cmd.store(21, std::sync::atomic::Ordering::Release);
     }
-    for h in handles {
+    for h in handles.into_iter().flatten() {
         let _ = h.join();
     }
     result
@@ -224,13 +273,14 @@ pub fn replay_c20(case: &Value) -> Vec<Divergence> {
     if case["kind"].as_str() == Some("loom") {
         return loom_run(Tier::Quick).1;
     }
+    let late = case["late"].as_bool().unwrap_or(false);
     let h: Vec<(usize, TOp)> = case["ops"]
         .as_array()
         .unwrap()
         .iter()
-        .map(|x| (x[0].as_u64().unwrap() as usize, OPS.iter().copied().find(|o| format!("{o:?}") == x[1].as_str().unwrap()).unwrap()))
+        .map(|x| (x[0].as_u64().unwrap() as usize, ALL_OPS.iter().copied().find(|o| format!("{o:?}") == x[1].as_str().unwrap()).unwrap()))
         .collect();
-    run_history(&h).into_iter().collect()
+    run_history_mode(&h, late).into_iter().collect()
 }
 
 pub const LOOM_BIN: &str = "/verif/target/loom/release/c20loom";
@@ -266,6 +316,9 @@ fn loom_try(tier: Tier) -> Result<(Value, Vec<Divergence>), String> {
 
 pub fn run_c20(args: &Args) -> i32 {
     let report = Report::new("C20", args.tier, args.seed, "model_checking");
+    // engine B (a separate process) runs while engine A works
+    let tier = args.tier;
+    let engine_b = std::thread::spawn(move || loom_try(tier));
     // ---- engine A
     let suffix_len = args.tier.pick(1usize, 2);
     let mut shortest: BTreeMap<RefState, Vec<(usize, TOp)>> = BTreeMap::new();
@@ -366,10 +419,74 @@ pub fn run_c20(args: &Args) -> i32 {
             }
         }
     }
+    // threads born late: every state's shortest history followed by every (thread, op), each worker
+    // created only when its first operation is due (a fresh thread must see the global setting of
+    // that moment, whatever has happened before it existed)
+    let mut late_runs = 0u64;
+    for (_, h) in shortest.iter() {
+        for t in 0..2 {
+            for op in OPS {
+                let mut full = h.clone();
+                full.push((t, op));
+                if !(full.iter().any(|x| x.0 == 0) && full.iter().any(|x| x.0 == 1)) {
+                    continue;
+                }
+                executions += 1;
+                late_runs += 1;
+                cross_thread += 1;
+                steps += full.len() as u64;
+                if let Some(d) = run_history_mode(&full, true) {
+                    report.record(&[d], || json!({"kind": "tracing-history", "late": true, "ops": full.iter().map(|(t, o)| json!([t, format!("{o:?}")])).collect::<Vec<_>>()}));
+                }
+            }
+        }
+    }
+    // two saved overrides alive at once on one thread, restored in either order: every sequence of
+    // length <= 5 (thorough 6) over {local_enable, local_disable, take into slot 1 / 2, restore from
+    // slot 1 / 2} on thread 0, with the global setting left on or switched off by thread 1 first
+    let mut token_runs = 0u64;
+    {
+        let alphabet = [TOp::LocalEnable, TOp::LocalDisable, TOp::LocalTake, TOp::Take2, TOp::Restore, TOp::Restore2];
+        let depth = args.tier.pick(5usize, 6);
+        let mut seqs: Vec<Vec<TOp>> = vec![vec![]];
+        let mut layer: Vec<Vec<TOp>> = vec![vec![]];
+        for _ in 0..depth {
+            let mut next = vec![];
+            for s in &layer {
+                for op in alphabet {
+                    let mut x = s.clone();
+                    x.push(op);
+                    next.push(x);
+                }
+            }
+            layer = next;
+        }
+        seqs.extend(layer); // maximal sequences only: every prefix is observed on the way
+        for q in seqs {
+            // a sequence without both slots in use adds nothing to the main exploration
+            if !(q.contains(&TOp::Take2) && q.contains(&TOp::LocalTake)) {
+                continue;
+            }
+            for prefix in [vec![], vec![(1usize, TOp::Disable)]] {
+                let mut full: Vec<(usize, TOp)> = prefix.clone();
+                full.extend(q.iter().map(|&o| (0usize, o)));
+                executions += 1;
+                token_runs += 1;
+                steps += full.len() as u64;
+                if !prefix.is_empty() {
+                    cross_thread += 1;
+                }
+                if let Some(d) = run_history(&full) {
+                    report.record(&[d], || hist_json(&full));
+                }
+            }
+        }
+    }
+    eprintln!("[C20] engine A: {late_runs} executions with late-born threads, {token_runs} two-token executions");
     eprintln!("[C20] engine A: {alt_runs} executions through alternative entry histories");
     eprintln!("[C20] engine A: {} reference states, {executions} executions, {:.1}s", shortest.len(), report.start.elapsed().as_secs_f64());
     // ---- engine B
-    let (lv, ld) = match loom_try(args.tier) {
+    let (lv, ld) = match engine_b.join().unwrap_or_else(|_| Err("engine B launcher panicked".into())) {
         Ok(x) => x,
         Err(e) => {
             // engine B could not run on this tree. If engine A already holds a violation, that
@@ -395,7 +512,7 @@ pub fn run_c20(args: &Args) -> i32 {
             "traces_validated_against_impl": executions + schedules,
             "evaluations": executions + schedules,
             "distinct_nontrivial": cross_thread,
-            "rule": "non-trivial = engine-A histories in which BOTH threads perform operations (the isolation claim is about cross-thread effects). engine A: BFS over the reference states (global flag, two overrides, <=1 saved token per thread); from each state's shortest history every (thread, op) of the 9 operations (the 8 public ones, local_take both with its token kept and with it discarded) followed by every suffix of length <= 1 (thorough 2), every state is additionally entered through one (thorough: two) alternative history, because the implementation may hold state the reference does not model; each history executed on two fresh OS threads driven in lock-step, both threads' is_enabled() compared with the reference after every step. engine B: loom on the unmodified tracing-enabled source (std shim exporting loom Cell / atomic / thread_local): every pair of programs of <= 2 operations (thorough: also 3-operation programs against <= 1-operation programs) on two loom threads, every interleaving loom's DPOR enumerates within the preemption bound, oracle = some sequential order respecting program order explains all observations and the final state.",
+            "rule": "non-trivial = engine-A histories in which BOTH threads perform operations (the isolation claim is about cross-thread effects). engine A: BFS over the reference states (global flag, two overrides, <=1 saved token per thread); from each state's shortest history every (thread, op) of the 9 operations (the 8 public ones, local_take both with its token kept and with it discarded) followed by every suffix of length <= 1 (thorough 2), every state is additionally entered through one (thorough: two) alternative history, because the implementation may hold state the reference does not model; each history executed on two fresh OS threads driven in lock-step, both threads' is_enabled() compared with the reference after every step; the shortest histories followed by every (thread, op) are repeated with each worker thread created only when its first operation is due (threads born in every reference state); every maximal sequence of length 5 (thorough 6) over {local_enable, local_disable, take into one of two token slots, restore from either} that uses both slots, with the global setting on and off (two saved overrides alive at once, restored in either order). engine B: loom on the unmodified tracing-enabled source (std shim exporting loom Cell / atomic / thread_local): every pair of programs of <= 2 operations (thorough: also 3-operation programs against <= 1-operation programs) on two loom threads, every interleaving loom's DPOR enumerates within the preemption bound, oracle = some sequential order respecting program order explains all observations and the final state.",
             "engine_a": {"reference_states": shortest.len(), "executions": executions, "steps": steps, "suffix_length": suffix_len},
             "engine_b": lv,
             "exhaustive": true,
